@@ -59,38 +59,38 @@ func (g *vfGen) tarArchive() []byte {
 	var buf bytes.Buffer
 	w := vtar.NewWriter(&buf)
 	formats := []vtar.Format{vtar.FormatUSTAR, vtar.FormatPAX, vtar.FormatGNU, vtar.FormatUnknown}
-	n := 1 + g.rng.Intn(3)
+	n := 1 + g.intn(3)
 	members := 0
 	for i := 0; i < n; i++ {
-		nameLen := 1 + g.rng.Intn(60)
-		if g.rng.Intn(6) == 0 {
-			nameLen = 90 + g.rng.Intn(120) // long names: PAX / GNU extension blocks come first
+		nameLen := 1 + g.intn(60)
+		if g.intn(6) == 0 {
+			nameLen = 90 + g.intn(120) // long names: PAX / GNU extension blocks come first
 		}
 		name := make([]byte, nameLen)
 		for j := range name {
-			name[j] = "abcdefghijklmnopqrstuvwxyz0123456789-_./"[g.rng.Intn(40)]
+			name[j] = "abcdefghijklmnopqrstuvwxyz0123456789-_./"[g.intn(40)]
 		}
-		if g.rng.Intn(5) == 0 {
+		if g.intn(5) == 0 {
 			name = append(name, []byte("\xc3\xa9\xe2\x82\xac")...)
 		}
 		types := []byte{vtar.TypeReg, vtar.TypeDir, vtar.TypeSymlink, vtar.TypeLink, vtar.TypeFifo, vtar.TypeChar, vtar.TypeBlock}
-		tf := types[g.rng.Intn(len(types))]
+		tf := types[g.intn(len(types))]
 		size := int64(0)
 		if tf == vtar.TypeReg {
-			size = int64(g.rng.Intn(700))
+			size = int64(g.intn(700))
 		}
 		h := &vtar.Header{
-			Typeflag: tf, Name: string(name), Mode: int64(g.rng.Intn(0o7777)), Uid: g.rng.Intn(1 << 21), Gid: g.rng.Intn(1 << 21),
-			Size: size, ModTime: time.Unix(int64(g.rng.Intn(1<<31)), 0), Uname: "user", Gname: "group",
-			Format: formats[g.rng.Intn(len(formats))],
+			Typeflag: tf, Name: string(name), Mode: int64(g.intn(0o7777)), Uid: g.intn(1 << 21), Gid: g.intn(1 << 21),
+			Size: size, ModTime: time.Unix(int64(g.intn(1<<31)), 0), Uname: "user", Gname: "group",
+			Format: formats[g.intn(len(formats))],
 		}
 		if tf == vtar.TypeSymlink || tf == vtar.TypeLink {
 			h.Linkname = "target/" + string(name[:1])
 		}
 		if tf == vtar.TypeChar || tf == vtar.TypeBlock {
-			h.Devmajor, h.Devminor = int64(g.rng.Intn(255)), int64(g.rng.Intn(255))
+			h.Devmajor, h.Devminor = int64(g.intn(255)), int64(g.intn(255))
 		}
-		if h.Format == vtar.FormatUSTAR && (len(h.Name) > 99 || g.rng.Intn(5) == 0 && false) {
+		if h.Format == vtar.FormatUSTAR && (len(h.Name) > 99 || g.intn(5) == 0 && false) {
 			h.Format = vtar.FormatPAX
 		}
 		if err := w.WriteHeader(h); err != nil {
@@ -142,15 +142,15 @@ func (g *vfGen) genC18() {
 			}
 		} else {
 			for k := 0; k < g.pick(40, 200); k++ {
-				pos := g.rng.Intn(512)
+				pos := g.intn(512)
 				if k%4 == 0 {
-					pos = 500 + g.rng.Intn(12) // trailing padding
+					pos = 500 + g.intn(12) // trailing padding
 				}
 				if pos >= 148 && pos < 156 {
 					continue
 				}
 				c := append([]byte{}, a...)
-				v := byte(g.rng.Intn(256))
+				v := byte(g.intn(256))
 				if k%3 == 0 {
 					v = c[pos] ^ 0x80 // sign flips exercise the signed checksum
 				}
@@ -158,7 +158,7 @@ func (g *vfGen) genC18() {
 					continue
 				}
 				c[pos] = v
-				g.emit(vfOp("tar", "bad", []int{0, 3072, 512}[g.rng.Intn(3)], c))
+				g.emit(vfOp("tar", "bad", []int{0, 3072, 512}[g.intn(3)], c))
 			}
 		}
 	}
